@@ -137,10 +137,20 @@ func c15One(text, fam string) (*core.Viol, bool, int) {
 	if d1, d2 := obs.DumpAST(rf.prog, obs.DumpOpt{CommentFlags: true}), obs.DumpAST(rl.prog, obs.DumpOpt{CommentFlags: true}); d1 != d2 {
 		return mk("line-mode-tree-differs@"+diffSite(d1, d2), fmt.Sprintf("file mode %s, line mode %s", trunc(d1, 300), trunc(d2, 300)), whole), true, 0
 	}
-	// (2) every open prefix asks for more input without error
+	// (2) every open prefix asks for more input without error (for the very long texts of the corpus, whose open
+	//     prefixes are the same few repeated thousands of times, only those within the first 3000 bytes)
 	n := 0
 	var viol *core.Viol
-	c15OpenPrefixes(text, c15Lex(text), func(prefix, reason string) bool {
+	ptext := text
+	if len(ptext) > 20000 {
+		// (the cut analysis is quadratic in the text length)
+		if i := strings.LastIndexByte(ptext[:3000], '\n'); i > 0 {
+			ptext = ptext[:i+1]
+		} else {
+			ptext = ""
+		}
+	}
+	c15OpenPrefixes(ptext, c15Lex(ptext), func(prefix, reason string) bool {
 		n++
 		r := parseText([]byte(prefix), true)
 		cs := core.BytesCase(fam, "prefix:"+reason, []byte(prefix))
@@ -190,6 +200,26 @@ func c15Feed(chunks []string, lineMode bool) c15Run {
 	return c15Run{out: printed.String(), globals: globalsDump(s), errs: strings.Join(errs, " | ")}
 }
 
+// c15FeedGrol feeds the chunks through the repl.Grol Parse / Run session API (one persistent state).
+func c15FeedGrol(chunks []string) c15Run {
+	g := repl.New()
+	var printed strings.Builder
+	g.State.Out = &printed
+	g.State.LogOut = &printed
+	g.State.NoLog = true
+	var errs []string
+	for _, ch := range chunks {
+		if err := g.Parse([]byte(ch)); err != nil {
+			errs = append(errs, err.Error())
+			continue
+		}
+		if err := g.Run(&printed); err != nil {
+			errs = append(errs, err.Error())
+		}
+	}
+	return c15Run{out: printed.String(), globals: globalsDump(g.State), errs: strings.Join(errs, " | ")}
+}
+
 func c15Script(stmts []string) *core.Viol {
 	text := strings.Join(stmts, "\n")
 	cs := core.Case{Kind: "script", Data: strings.Join(stmts, " ;; ")}
@@ -211,6 +241,9 @@ func c15Script(stmts []string) *core.Viol {
 			}
 		}
 		chunks = append(chunks, cur)
+		if gg := c15FeedGrol(chunks); gg.out != whole.out || gg.globals != whole.globals || (gg.errs == "") != (whole.errs == "") {
+			return &core.Viol{Class: "chunked-differs:session-api", Detail: fmt.Sprintf("chunks %q through repl.Grol Parse/Run: out=%q errs=%q ; whole: out=%q errs=%q", chunks, gg.out, gg.errs, whole.out, whole.errs), Case: cs, FindText: text}
+		}
 		got := c15Feed(chunks, true)
 		if got.out != whole.out || got.globals != whole.globals || got.errs != whole.errs {
 			what := "output"
